@@ -217,6 +217,12 @@ def run_check(check_id, tier, collect=False, plan_override=None):
         print("HARNESS-ERROR: build failed")
         return 2
     mod = importlib.import_module(modname)
+    # targets a check needs besides `all` (libFuzzer binaries: a second, instrumented compilation of libawkward) are built here, not
+    # inside a case, where a build of several minutes on a loaded machine would be taken for a hang by the per-case watchdog
+    for target in getattr(mod, "FUZZ_TARGETS", []):
+        if not build(["san"], target):
+            print("HARNESS-ERROR: build of %s failed" % target)
+            return 2
     plan = plan_override or mod.PLAN[tier]
     known = load_known_findings()
     status = 0
